@@ -1,5 +1,144 @@
-(* Properties_C04.v — HLL union equals the sketch of the concatenated streams at reduced precision. *)
-From Coq Require Import ZArith NArith List Bool Lia.
-From DS Require Import Word RunnerLib HllDefs HllUnionDefs.
+(* Properties_C04.v — HLL union equals the sketch of the concatenated streams at reduced precision.
+   Only statements, closed by [exact]; proofs live in HllUnionBase / HllUnionCoupon / HllUnionProofs / HllUnionCorollaries.
+   All statements are about HllUnionDefs.u_run / u_step / union_impl in the [repaired] variant — the definitions that are
+   extracted (HllUnionDefs.run) and run against the C++ on every check.  The shipped variant is refuted in
+   Regression_hllunion.v.
+
+   Vocabulary.  A history is a list of [hop]: HSk rv src C (update with sketch [src], by && when rv; C is the coupon list
+   the sketch represents), HCp c (a raw item, as its coupon), HEst (any of the four estimate accessors), HRes ty
+   (get_result), HReset.  [hop_ok] asks of an input only what C03 proves of every hll_sketch ([src_ok]: list/set hold
+   exactly the distinct coupons; an HLL array decodes to the per-slot max of its coupons, and is non-empty only if it
+   saw a coupon) and that coupons are 32-bit with value >= 1.  [since_reset ops] is the history after the last reset,
+   [offered] the coupons of its non-empty inputs and raw items, [lg_star lgmax] = min of lg_max_k and the lg_k of its
+   non-empty HLL-mode inputs.  [result_ok lg C g]: lg_k g = lg, the registers of g are the per-slot max of C at lg, g is
+   empty iff C is, and in coupon mode g holds exactly the set C. *)
+From Coq Require Import ZArith NArith List Bool Lia Permutation.
+From DS Require Import Word RunnerLib HllDefs HllProofs HllUnionDefs HllUnionBase HllUnionCoupon HllUnionProofs HllUnionCorollaries.
 Import ListNotations.
 Local Open Scope N_scope.
+
+(* ---- register algebra (mergeHll) ---- *)
+(* down-sampling: folding the registers of C at lg_k = s into 2^lg slots (slot & mask, max) gives the registers of C at lg *)
+Theorem C04_downsample_spec : forall lg s C, lg <= s -> s <= 26 ->
+  merge_down (N.ones lg) (zerosN (2 ^ lg)) 0 (spec_regs s C) = spec_regs lg C.
+Proof. exact downsample_spec. Qed.
+
+(* ... and merging them into registers that already hold C1 gives the registers of the concatenation *)
+Theorem C04_downsample_merge_spec : forall lg s C1 C2, lg <= s -> s <= 26 ->
+  merge_down (N.ones lg) (spec_regs lg C1) 0 (spec_regs s C2) = spec_regs lg (C1 ++ C2).
+Proof. exact downsample_merge_spec. Qed.
+
+Theorem C04_equal_k_merge_spec : forall lgk A B, zipmax (spec_regs lgk A) (spec_regs lgk B) = spec_regs lgk (A ++ B).
+Proof. exact zipmax_spec. Qed.
+
+(* ---- the gadget as a sketch: one coupon through LIST / SET / HLL_8 incl. every promotion ---- *)
+Theorem C04_gadget_coupon_update : forall lgk C i c, Forall cok C -> cmode_ok lgk C i -> cok c ->
+  exists i', impl_update i c = Some i' /\ cmode_ok lgk (C ++ [c]) i'.
+Proof. exact impl_update_ok. Qed.
+
+(* ---- the union, for ALL histories ---- *)
+Theorem C04_union_spec : forall lgmax ops, 4 <= lgmax -> lgmax <= 21 -> Forall hop_ok ops ->
+  exists u, u_run repaired (u_new lgmax) (map op_of ops) = Some u /\
+            result_ok (lg_star lgmax (since_reset ops)) (offered (since_reset ops)) (u_gadget u).
+Proof. exact union_spec. Qed.
+
+(* lg* really is the minimum of lg_max_k and the lg_k of the non-empty HLL-mode inputs *)
+Theorem C04_lg_star_is_min : forall lgmax ops,
+  (lg_star lgmax ops <= lgmax /\ forall k, In k (hll_lgks ops) -> lg_star lgmax ops <= k) /\
+  (lg_star lgmax ops = lgmax \/ In (lg_star lgmax ops) (hll_lgks ops)).
+Proof. intros lgmax ops. split; [apply lg_star_le|apply lg_star_attained]. Qed.
+
+(* get_result(HLL_8) is defined and has that lg_k, those registers and that emptiness *)
+Theorem C04_get_result_8 : forall lgmax ops, 4 <= lgmax -> lgmax <= 21 -> Forall hop_ok ops ->
+  exists u r, u_run repaired (u_new lgmax) (map op_of ops) = Some u /\ u_result u T8 = Some r /\
+    sk_lgk r = lg_star lgmax (since_reset ops) /\
+    sk_regs r = Some (spec_regs (lg_star lgmax (since_reset ops)) (offered (since_reset ops))) /\
+    (sk_is_empty r = true <-> offered (since_reset ops) = []).
+Proof. exact union_result8. Qed.
+
+(* order of presentation does not matter *)
+Theorem C04_union_perm : forall lgmax ops1 ops2 u1 u2, 4 <= lgmax -> lgmax <= 21 ->
+  Forall hop_ok ops1 -> no_reset ops1 -> Permutation ops1 ops2 ->
+  u_run repaired (u_new lgmax) (map op_of ops1) = Some u1 ->
+  u_run repaired (u_new lgmax) (map op_of ops2) = Some u2 ->
+  sk_lgk (u_gadget u1) = sk_lgk (u_gadget u2) /\ sk_regs (u_gadget u1) = sk_regs (u_gadget u2) /\
+  sk_is_empty (u_gadget u1) = sk_is_empty (u_gadget u2).
+Proof. exact union_perm. Qed.
+
+(* intermediate estimate / get_result calls and lvalue vs rvalue update do not matter: two histories that agree after
+   deleting the queries and forgetting the value category end in the same result *)
+Theorem C04_union_interleaving : forall lgmax ops1 ops2 u1 u2, 4 <= lgmax -> lgmax <= 21 ->
+  Forall hop_ok ops1 -> Forall hop_ok ops2 -> plain ops1 = plain ops2 ->
+  u_run repaired (u_new lgmax) (map op_of ops1) = Some u1 ->
+  u_run repaired (u_new lgmax) (map op_of ops2) = Some u2 ->
+  sk_lgk (u_gadget u1) = sk_lgk (u_gadget u2) /\ sk_regs (u_gadget u1) = sk_regs (u_gadget u2) /\
+  sk_is_empty (u_gadget u1) = sk_is_empty (u_gadget u2).
+Proof. exact union_interleaving. Qed.
+
+(* nothing ever offered (since the last reset) is lost *)
+Theorem C04_nothing_lost : forall lgmax ops, 4 <= lgmax -> lgmax <= 21 -> Forall hop_ok ops ->
+  exists u regs, u_run repaired (u_new lgmax) (map op_of ops) = Some u /\ sk_regs (u_gadget u) = Some regs /\
+    forall c, In c (offered (since_reset ops)) -> c_val c <= getN regs (c_slot (sk_lgk (u_gadget u)) c).
+Proof. exact nothing_lost. Qed.
+
+(* the input hypothesis is met by every HLL_8 sketch built from coupons, whatever mode it is in *)
+Theorem C04_built_inputs_admissible : forall lgk cs, 4 <= lgk -> lgk <= 21 -> Forall cok cs ->
+  exists i, sk_updates (sk_new lgk T8 false) cs = Some i /\ src_ok cs i.
+Proof. exact built8_src_ok. Qed.
+
+(* the specification values the model prints for the oracle (S lines of get_result / observe) are the L0 registers *)
+Theorem C04_spec_line_regs : forall lg log, spec_regs_fold lg log = spec_regs lg log.
+Proof. exact fold_reg_max_spec. Qed.
+
+(* ---- non-vacuity: a history with an HLL_6 input of lg_k 6, an HLL_4 input of lg_k 4 (both HLL mode), a list-mode input,
+   a raw item, queries in between, by const& and by &&, meets the hypotheses; the conclusion pins lg_k and 16 registers ---- *)
+Definition ex_C6 : list N := map (fun a => pair_sv a 3) [16; 17; 18; 19; 20; 21; 52; 63].
+Definition ex_C4 : list N := map (fun a => pair_sv a 2) [8; 9; 10; 11; 12; 13; 14; 15; 1023].
+Definition ex_CL : list N := [pair_sv 100 1; pair_sv 200 5].
+
+Lemma ex_cok a v : a < 67108864 -> 0 < v -> v < 64 -> cok (pair_sv a v).
+Proof.
+  intros Ha Hv Hv'. split; [|now rewrite pair_val].
+  unfold pair_sv. apply lt_pow2_of_bits with (n := 32). intros t Ht.
+  rewrite N.lor_spec, N.shiftl_spec_high' by lia. rewrite N.land_spec.
+  rewrite (small_testbit_high v 6 (t - 26)) by (try lia; exact Hv').
+  rewrite (small_testbit_high a 26 t) by (try lia; exact Ha). reflexivity.
+Qed.
+
+Example C04_nonvacuous :
+  exists s6 s4 sl u,
+    sk_updates (sk_new 6 T6 false) ex_C6 = Some s6 /\ sk_updates (sk_new 4 T4 false) ex_C4 = Some s4 /\
+    sk_updates (sk_new 5 T8 false) ex_CL = Some sl /\
+    let ops := [HSk true sl ex_CL; HEst; HSk false s6 ex_C6; HRes T4; HCp (pair_sv 7 9); HEst; HSk true s4 ex_C4] in
+    Forall hop_ok ops /\
+    u_run repaired (u_new 5) (map op_of ops) = Some u /\
+    lg_star 5 (since_reset ops) = 4 /\ sk_lgk (u_gadget u) = 4 /\
+    sk_regs (u_gadget u) = Some [3; 3; 3; 3; 3; 3; 0; 9; 5; 2; 2; 2; 2; 2; 2; 3].
+Proof.
+  destruct (built8_src_ok 5 ex_CL ltac:(lia) ltac:(lia)) as (sl & El & Hl).
+  { repeat constructor; apply ex_cok; reflexivity. }
+  vm_compute in El. injection El as <-.
+  eexists _, _, _, _. split; [vm_compute; reflexivity|]. split; [vm_compute; reflexivity|]. split; [vm_compute; reflexivity|].
+  cbv zeta. split.
+  - apply Forall_cons; [exact Hl|]. apply Forall_cons; [exact I|]. apply Forall_cons.
+    { split; [repeat constructor; apply ex_cok; reflexivity|].
+      split; try (vm_compute; congruence); discriminate. }
+    apply Forall_cons; [exact I|]. apply Forall_cons; [apply ex_cok; reflexivity|]. apply Forall_cons; [exact I|].
+    apply Forall_cons; [|apply Forall_nil].
+    split; [repeat constructor; apply ex_cok; reflexivity|].
+    split; try (vm_compute; congruence); discriminate.
+  - split; [vm_compute; reflexivity|]. split; [vm_compute; reflexivity|]. split; vm_compute; reflexivity.
+Qed.
+
+Print Assumptions C04_downsample_spec.
+Print Assumptions C04_downsample_merge_spec.
+Print Assumptions C04_equal_k_merge_spec.
+Print Assumptions C04_gadget_coupon_update.
+Print Assumptions C04_union_spec.
+Print Assumptions C04_lg_star_is_min.
+Print Assumptions C04_get_result_8.
+Print Assumptions C04_union_perm.
+Print Assumptions C04_union_interleaving.
+Print Assumptions C04_nothing_lost.
+Print Assumptions C04_built_inputs_admissible.
+Print Assumptions C04_spec_line_regs.
